@@ -51,6 +51,10 @@ func c20Gen(rng *vrng, depth int, maxKids int) []*c20Node {
 		}
 		out = append(out, nd)
 	}
+	if depth > 0 && rng.chance(40) {
+		// last child in name order: a sub directory with nothing the usual patterns select
+		out = append(out, &c20Node{name: "zz_sub", isDir: true, kids: []*c20Node{{name: "n.dat"}}})
+	}
 	sort.Slice(out, func(i, j int) bool { return out[i].name < out[j].name })
 	return out
 }
@@ -201,6 +205,8 @@ func engineC20(c *vctx) error {
 				{name: "A", isDir: true, kids: []*c20Node{{name: "x.go"}}},
 				{name: "a", isDir: true, kids: []*c20Node{{name: "b", isDir: true, kids: []*c20Node{{name: "c"}, {name: "x.go"}}}, {name: "d", isDir: true}, {name: "y.go"}}},
 				{name: "b", isDir: true, kids: []*c20Node{{name: "a", isDir: true, kids: []*c20Node{{name: "b"}}}}},
+				{name: "docs", isDir: true, kids: []*c20Node{{name: "a.txt"}, {name: "zz_misc", isDir: true, kids: []*c20Node{{name: "n.go"}}}}},
+				{name: "docs2", isDir: true, kids: []*c20Node{{name: "aa_misc", isDir: true, kids: []*c20Node{{name: "n.go"}}}, {name: "b.txt"}}},
 				{name: "links", isDir: true, kids: []*c20Node{{name: "current", link: true}, {name: "deep", isDir: true, kids: []*c20Node{{name: "old", link: true}, {name: "pipe", fifo: true}}}}},
 				{name: "x.go"},
 			}
@@ -228,8 +234,8 @@ func engineC20(c *vctx) error {
 		treeTerm := c20Term(top)
 		for ri := 0; ri < nrest; ri++ {
 			mode := []string{"MInclude", "MExclude", "MInclude", "MExclude", "MAll"}[rng.intn(5)]
-			if ti == 0 && ri < 7 {
-				mode = []string{"MInclude", "MExclude", "MExclude", "MExclude", "MInclude", "MInclude", "MInclude"}[ri]
+			if ti == 0 && ri < 9 {
+				mode = []string{"MInclude", "MExclude", "MExclude", "MExclude", "MInclude", "MInclude", "MInclude", "MInclude", "MInclude"}[ri]
 			}
 			del := rng.chance(50)
 			var pats, ipats []string
@@ -265,6 +271,15 @@ func engineC20(c *vctx) error {
 			if ti == 0 && ri == 6 { // a fifo alone
 				pats, ipats, del = []string{"/links/deep/pipe"}, nil, true
 			}
+			var fixedExtras [][2]string
+			if ti == 0 && ri == 7 { // unselected parent, selected file first, traversed sub directory with nothing selected last; stale matching file
+				pats, ipats, del = []string{"*.txt"}, nil, true
+				fixedExtras = [][2]string{{"/docs", "old.txt"}, {"/docs2", "old.txt"}, {"/docs", "keep.go"}}
+			}
+			if ti == 0 && ri == 8 { // the same through an absolute pattern with a wildcard directory
+				pats, ipats, del = []string{"/doc*/**/*.txt"}, nil, true
+				fixedExtras = [][2]string{{"/docs", "zz.txt"}, {"/docs2", "zz.txt"}, {"/docs/zz_misc", "stale.txt"}}
+			}
 			if ti == 0 && ri == 1 {
 				pats, ipats, del = []string{"/a/b", "*.GO"}, []string{"/B/A"}, true
 			}
@@ -275,8 +290,18 @@ func engineC20(c *vctx) error {
 			}
 			var extras [][2]string
 			nx := rng.intn(4)
-			if ti == 0 && ri >= 4 && ri <= 6 {
+			if ti == 0 && ri >= 4 && ri <= 8 {
 				nx = 0
+			}
+			for _, x := range fixedExtras {
+				full := filepath.Join(target, filepath.FromSlash(x[0]), x[1])
+				if err := os.MkdirAll(filepath.Dir(full), 0o755); err != nil {
+					return err
+				}
+				if err := os.WriteFile(full, []byte("old"), 0o644); err != nil {
+					return err
+				}
+				extras = append(extras, x)
 			}
 			for i := 0; i < nx; i++ {
 				loc := ""
